@@ -71,6 +71,10 @@ class HeapEnv(ME.Env):
         return None
 
     def eval(self, e, env, universe):
+        # a string bound to a parameter is a non-null pointer
+        if e['k'] == 'BinaryOperator' and e.get('op') in ('==', '!=') and F.strip(e['c'][0])['k'] == 'DeclRefExpr' \
+                and isinstance(env.get(F.strip(e['c'][0])['n']), str) and F.const_value(F.strip(e['c'][1])) == 0:
+            return int(e['op'] == '!=')
         # floating-point facts (NaN / infinity tests of printers): evaluated in Python when an operand is a float
         if e['k'] == 'FloatingLiteral':
             try:
@@ -249,6 +253,9 @@ class PrintExec(ME.MiniExec):
         env2 = {}
         for p_, a in zip(g.params, args):
             a0 = F.strip(a)
+            if a0['k'] == 'StringLiteral':
+                env2[p_['n']] = a0['s']               # a literal passed to a helper: printed as it is, and it is not NULL
+                continue
             if a0['k'] == 'DeclRefExpr' and a0.get('dk') == 'func':
                 env2[p_['n']] = ('func', a0['n'])    # a function passed by name: calls through the parameter are dispatched
                 continue
